@@ -1600,6 +1600,8 @@ class Interp:
                 v = UNK
             elif (isinstance(left, StructLeaf) or isinstance(right, StructLeaf)) and isinstance(o, (ast.Eq, ast.NotEq)):
                 v = (left == right) if isinstance(o, ast.Eq) else (left != right)
+            elif isinstance(o, (ast.Eq, ast.NotEq)) and any(isinstance(x, AxArr) for x in (left, right)) and any(isinstance(x, slice) or x is Ellipsis or x is None for x in (left, right)):
+                v = isinstance(o, ast.NotEq)  # an array defers the comparison with a slice / ellipsis / None: Python falls back to identity
             elif isinstance(left, AxArr) or isinstance(right, AxArr):
                 arrs = [x for x in (left, right) if isinstance(x, AxArr)]
                 return broadcast(arrs)
